@@ -66,7 +66,8 @@ type World struct {
 	Dir  string // data directory
 	// DirSpell: how the caller spells the directory in Options.DirPath: 0 clean, 1 trailing separator, 2 trailing
 	// "/.", 3 a "/./" in the middle (all name the same directory)
-	DirSpell int
+	DirSpell  int
+	lastValue []byte // the value of the last plain put (also when it failed)
 	// BackgroundMerge: Options.EnableBackgroundMerge (the engine's own timer-driven Merge goroutine)
 	BackgroundMerge bool
 	DB              *kv.DB
@@ -680,6 +681,7 @@ func (w *World) Apply(op Op) ApplyResult {
 	switch op.K {
 	case "put":
 		val := w.value(op.Key, op.VC, op.Arg)
+		w.lastValue = val
 		k, v := w.advArgs(op.Key, val)
 		err := w.guard(func() error { return w.DB.Put(k, v) })
 		w.advDone(op.Key, val, "DB.Put")
